@@ -385,4 +385,159 @@ theorem nttTableK_spec (P : PrimeSet) (k j : Nat) (g : LaneFwd P k) (hj1 : 1 ≤
   | err e => rw [hrec] at ht; cases ht
   | panic c => rw [hrec] at ht; cases ht
 
+/-! ### the inverse table -/
+
+def invMetas (q logQ bsAfter : Nat) : Nat → Nat → Nat → Outcome (List StepMeta × Nat)
+  | 0, _, bs => .ok ([], bs)
+  | fuel + 1, nn, bs =>
+    let doReduce := bs == 64
+    let bs := if doReduce then bsAfter else bs
+    let halfBs := (bs + 1) / 2
+    let bsMult := halfBs + logQ + 1
+    let newBs := 1 + max bs bsMult
+    if newBs > 64 then .panic "assert"
+    else
+      match invMetas q logQ bsAfter fuel (nn * 2) newBs with
+      | .ok (ls, b) => .ok ({ q2bs := wu64 (q * 2 ^ (bsMult - logQ)), bs := newBs, halfBs := halfBs, mask := maskOf halfBs, reduce := doReduce } :: ls, b)
+      | o => o
+
+theorem invLevels_metas (q logQ omega n bsAfter : Nat) :
+    ∀ (fuel nn bs : Nat) (ls : List Level) (b : Nat), invLevels q logQ omega n bsAfter fuel nn bs = .ok (ls, b) →
+      invMetas q logQ bsAfter fuel nn bs = .ok (ls.map Prod.fst, b) ∧ ls.length = fuel := by
+  intro fuel
+  induction fuel with
+  | zero =>
+    intro nn bs ls b h
+    simp only [invLevels, Outcome.ok.injEq, Prod.mk.injEq] at h
+    obtain ⟨rfl, rfl⟩ := h
+    simp [invMetas]
+  | succ f ih =>
+    intro nn bs ls b h
+    unfold invLevels at h
+    unfold invMetas
+    simp only [] at h ⊢
+    generalize (if (bs == 64) = true then bsAfter else bs) = bsx at h ⊢
+    by_cases hnb : 1 + max bsx ((bsx + 1) / 2 + logQ + 1) > 64
+    · rw [if_pos hnb] at h; cases h
+    · rw [if_neg hnb] at h ⊢
+      cases hrec : invLevels q logQ omega n bsAfter f (nn * 2) (1 + max bsx ((bsx + 1) / 2 + logQ + 1)) with
+      | ok v =>
+        obtain ⟨ls', b'⟩ := v
+        rw [hrec] at h
+        simp only [Outcome.ok.injEq, Prod.mk.injEq] at h
+        obtain ⟨rfl, rfl⟩ := h
+        obtain ⟨i1, i2⟩ := ih _ _ _ _ hrec
+        rw [i1]
+        simp [i2]
+      | err e => rw [hrec] at h; cases h
+      | panic c => rw [hrec] at h; cases h
+
+/-- twiddle facts of the level of block size `2^i` in an inverse table of size `2^k` -/
+def LvlTw (q : Nat) (ω' : ZMod q) (k i : Nat) (l : Level) : Prop :=
+  l.2.length + 1 = 2 ^ (i - 1) ∧ TwFrom q l.1.halfBs (ω' ^ 2 ^ (k + 1 - i)) (ω' ^ 2 ^ (k + 1 - i)) l.2
+
+def AscTw (q : Nat) (ω' : ZMod q) (k : Nat) : Nat → List Level → Prop
+  | _, [] => True
+  | i, l :: rest => LvlTw q ω' k i l ∧ AscTw q ω' k (i + 1) rest
+
+def DescTw (q : Nat) (ω' : ZMod q) (k : Nat) : List Level → Prop
+  | [] => True
+  | l :: rest => LvlTw q ω' k (rest.length + 1) l ∧ DescTw q ω' k rest
+
+theorem desc_of_asc (q : Nat) (ω' : ZMod q) (k : Nat) :
+    ∀ (A B : List Level) (i0 : Nat), AscTw q ω' k i0 A → DescTw q ω' k B → B.length + 1 = i0 → DescTw q ω' k (A.reverse ++ B) := by
+  intro A
+  induction A with
+  | nil => intro B i0 _ hB _; simpa using hB
+  | cons l A' ih =>
+    intro B i0 hA hB hlen
+    obtain ⟨hl, hA'⟩ := hA
+    rw [List.reverse_cons, List.append_assoc]
+    apply ih (l :: B) (i0 + 1) hA'
+    · exact ⟨by rw [hlen]; exact hl, hB⟩
+    · simp [hlen]
+
+theorem invTwOK_of_desc (q : Nat) (ω' : ZMod q) (k : Nat) :
+    ∀ (D : List Level), DescTw q ω' k D → D.length ≤ k → InvTwOK q (ω' ^ 2 ^ (k + 1 - D.length)) D := by
+  intro D
+  induction D with
+  | nil => intro _ _; trivial
+  | cons l rest ih =>
+    intro hD hlen
+    obtain ⟨m, tw⟩ := l
+    obtain ⟨⟨h1, h2⟩, hrest⟩ := hD
+    simp only [List.length_cons] at hlen h1 h2 ⊢
+    refine ⟨by simpa using h1, h2, ?_⟩
+    have := ih hrest (by omega)
+    rw [pow_two_pow_sq]
+    have e : k + 1 - (rest.length + 1) + 1 = k + 1 - rest.length := by omega
+    rw [e]; exact this
+
+theorem inv_unique {R : Type*} [CommMonoid R] (x y z : R) (h1 : x * y = 1) (h2 : y * z = 1) : x = z := by
+  calc x = x * (y * z) := by rw [h2, mul_one]
+    _ = (x * y) * z := by rw [mul_assoc]
+    _ = z := by rw [h1, one_mul]
+
+theorem invLevels_tw (q logQ omega n bsAfter k : Nat) (hn : n = 2 ^ k) (hk : k ≤ 16)
+    (hq : 2 ^ 17 < q) (hq31 : q < 2 ^ 31) (hω : omega < q) (ω' : ZMod q) (hinv : cz q omega * ω' = 1)
+    (hord : (cz q omega) ^ (q - 1) = 1) :
+    ∀ (fuel i bs : Nat) (ls : List Level) (b : Nat), 2 ≤ i → i + fuel ≤ k + 1 →
+      invLevels q logQ omega n bsAfter fuel (2 ^ i) bs = .ok (ls, b) → AscTw q ω' k i ls := by
+  intro fuel
+  induction fuel with
+  | zero =>
+    intro i bs ls b _ _ h
+    simp only [invLevels, Outcome.ok.injEq, Prod.mk.injEq] at h
+    obtain ⟨rfl, rfl⟩ := h
+    trivial
+  | succ f ih =>
+    intro i bs ls b hi hik h
+    unfold invLevels at h
+    simp only [] at h
+    generalize (if (bs == 64) = true then bsAfter else bs) = bsx at h
+    by_cases hnb : 1 + max bsx ((bsx + 1) / 2 + logQ + 1) > 64
+    · rw [if_pos hnb] at h; cases h
+    · rw [if_neg hnb] at h
+      set hb := (bsx + 1) / 2 with hhb
+      have hb32 : hb ≤ 32 := by
+        have : bsx ≤ max bsx (hb + logQ + 1) := le_max_left _ _
+        omega
+      have hdbl : 2 ^ i * 2 = 2 ^ (i + 1) := by rw [pow_succ]
+      rw [hdbl] at h
+      cases hrec : invLevels q logQ omega n bsAfter f (2 ^ (i + 1)) (1 + max bsx (hb + logQ + 1)) with
+      | ok v =>
+        obtain ⟨ls', b'⟩ := v
+        rw [hrec] at h
+        simp only [Outcome.ok.injEq, Prod.mk.injEq] at h
+        obtain ⟨rfl, rfl⟩ := h
+        have hhalf : 2 ^ i / 2 = 2 ^ (i - 1) := by
+          have : i = (i - 1) + 1 := by omega
+          conv_lhs => rw [this, pow_succ]
+          omega
+        have hdiv : n / 2 ^ (i - 1) = 2 ^ (k + 1 - i) := by
+          rw [hn, Nat.pow_div (by omega) (by decide)]; congr 1; omega
+        set m := 2 ^ (k + 1 - i) with hm
+        have hm0 : 0 < m := Nat.two_pow_pos _
+        have hmlt : m < q - 1 := by
+          have : m ≤ 2 ^ 16 := Nat.pow_le_pow_right (by decide) (by omega)
+          omega
+        obtain ⟨pe, pl⟩ := modqPow_neg omega q m (by omega) (by omega) (by omega) hm0 hmlt
+        have hroot : cz q (modqPow omega (-(m : Int)) q) = ω' ^ m := by
+          apply inv_unique _ ((cz q omega) ^ m) _
+          · rw [cz_eq_of_modEq pe]
+            have : cz q (omega ^ (q - 1 - m)) = (cz q omega) ^ (q - 1 - m) := Nat.cast_pow _ _
+            rw [this, ← pow_add]
+            have : q - 1 - m + m = q - 1 := by omega
+            rw [this, hord]
+          · rw [← mul_pow, hinv, one_pow]
+        rw [hhalf, hdiv] at *
+        obtain ⟨t1, t2⟩ := packedPowers_spec q hb hq31 (by omega) hb32 _ pl (2 ^ (i - 1) - 1) _ pl
+        refine ⟨⟨?_, ?_⟩, ih (i + 1) _ _ _ (by omega) (by omega) hrec⟩
+        · show (packedPowers q hb (2 ^ (i - 1) - 1) _ _).length + 1 = 2 ^ (i - 1)
+          rw [t2]; have := Nat.one_le_two_pow (n := i - 1); omega
+        · show TwFrom q hb _ _ (packedPowers q hb (2 ^ (i - 1) - 1) _ _)
+          rw [← hroot]; exact t1
+      | err e => rw [hrec] at h; cases h
+      | panic c => rw [hrec] at h; cases h
+
 end Ntt120
